@@ -247,6 +247,23 @@ def _limit_memory():
     except Exception:
         pass
 
+def run_harness_per_case(domain, cases_file, binary):
+    """One fresh process per case (process-wide state such as caches must be cold every time)."""
+    from concurrent.futures import ThreadPoolExecutor
+    cases = [l for l in open(cases_file).read().split('\n') if l.strip()]
+    def one(ic):
+        i, c = ic
+        part = '%s.%d' % (cases_file, i)
+        open(part, 'w').write(c + '\n')
+        rc, res = run_harness(domain, part, timeout=120, binary=binary)
+        try:
+            os.remove(part); os.remove(part + '.part')
+        except OSError:
+            pass
+        return res[0] if res else ('MISSING', '-')
+    with ThreadPoolExecutor(max_workers=8) as ex:
+        return 0, list(ex.map(one, enumerate(cases)))
+
 def run_harness(domain, cases_file, timeout=3000, binary='harness'):
     """Run the implementation on every case.  If the harness process dies (a fatal runtime error
     such as out-of-memory cannot be recovered inside Go), the case it died on is reported as a
@@ -389,7 +406,11 @@ def run_check(prop, tier, seed, replay):
 def run_batch(prop, dom, cases, work, tag):
     cf = os.path.join(work, 'cases_%s_%s.txt' % (dom, tag))
     open(cf, 'w').write('\n'.join(cases) + '\n')
-    rc, impl = run_harness(dom, cf, binary='harness-race' if dom in prop.get('race_domains', ()) else 'harness')
+    binary = 'harness-race' if dom in prop.get('race_domains', ()) else 'harness'
+    if dom in prop.get('per_case_domains', ()):
+        rc, impl = run_harness_per_case(dom, cf, binary)
+    else:
+        rc, impl = run_harness(dom, cf, binary=binary)
     if prop.get('no_model', {}).get(dom):
         model = ['-'] * len(cases); spec = ['-'] * len(cases); nq = 0
     else:
